@@ -1,5 +1,6 @@
 import FordModel.Proto
 import FordModel.Display
+import FordModel.DisplayLinks
 namespace Ford
 open Proto Display
 
@@ -67,6 +68,28 @@ def entsToList : Ents → List Ent
 def showIds (ns : List Nat) : Str :=
   joinSep ',' (ns.map showNat)
 
+/-- `a:b;a:b` -> association list (`-` = empty) -/
+def pairsOf (s : Str) : List (Nat × Str) :=
+  if s == ['-'] || s == [] then [] else
+    (splitOn ';' s).filterMap fun f => match splitOn ':' f with
+      | [a, b] => some (natOf a, b)
+      | _ => none
+
+def lookupNat (xs : List (Nat × Nat)) (i : Nat) : Nat :=
+  match xs.lookup i with
+  | some v => v
+  | none => i
+
+def lookupList (xs : List (Nat × List Nat)) (i : Nat) : List Nat :=
+  match xs.lookup i with
+  | some v => v
+  | none => []
+
+def showLink (l : Link) : Str :=
+  match l.hit with
+  | some h => joinSep ':' [showNat l.ctx, showNat l.name, showNat h.target, showNat h.page, if h.viaRef then ['1'] else ['0']]
+  | none => joinSep ':' [showNat l.ctx, showNat l.name, ['-']]
+
 end C05D
 
 open C05D in
@@ -84,6 +107,23 @@ def dispatchC05 : List Str → Option (List Str)
           let p := entsToList fs
           let q := pruneProject cfg p
           some ["ok".toList, showIds (idsOf q), showIds (visibleIdsOf q), showIds (pageIds q), showIds (shownIds cfg p)]
+        | _ => some ["bad-tree".toList]
+      | _ => some ["bad-request".toList]
+    else if cmd == "c05.links".toList then
+      -- c05.links <variant> <checksPage 0|1> <display> <proc_internals> <hide_undoc> <nfiles> <aliases id:code;..> <links ctx:n.n;..> node*
+      match args with
+      | v :: chk :: disp :: pint :: hu :: nf :: al :: lks :: nodes =>
+        let cfg : Cfg := { display := wordsOf disp, procInternals := pint == ['1'], hideUndoc := hu == ['1'],
+                           fileInherits := v == "repaired".toList }
+        let toks := nodes.map nodeOf
+        match parseKids (2 * toks.length + 2) (natOf nf) toks with
+        | some (fs, []) =>
+          let p := entsToList fs
+          let q := pruneProject cfg p
+          let aliases := (pairsOf al).map fun (a, b) => (a, natOf b)
+          let links := (pairsOf lks).map fun (a, b) => (a, (splitOn '.' b).map natOf)
+          let E : LinkEnv := { nm := lookupNat aliases, lk := lookupList links, orig := p, checksPage := chk == ['1'] }
+          some ["ok".toList, joinSep ',' ((linksOf E q).map showLink), showIds (pageIds q)]
         | _ => some ["bad-tree".toList]
       | _ => some ["bad-request".toList]
     else if cmd == "c05.setdisplay".toList then
